@@ -64,6 +64,8 @@ void do_plan(int tier)
       plan.fix[i].reserve = (int)sim_plan(2);
       static const int sizes[] = {0, 1, 2, 3, 4, 8, 16, 31};
       plan.fix[i].size = sizes[sim_plan(8)];
+      if (sim_plan(10) == 0)
+        plan.fix[i].size = -1 - (int)sim_plan(3);  // a size near SIZE_MAX / 2^63
     }
     plan.capacity_choice = (int)sim_plan(4);
     plan.capacity_random = (int)sim_plan(64);
@@ -92,7 +94,7 @@ void describe(char *buf, size_t n)
     static const char *cc[] = {"needed-1", "needed", "needed+1", "random"};
     k = snprintf(buf, n, "{\"mode\": \"fixed-capacity writer\", \"capacity\": \"%s\", \"random_capacity\": %d, \"ops\": [", cc[plan.capacity_choice], plan.capacity_random);
     for (int i = 0; i < plan.nfix; i++)
-      k += snprintf(buf + k, n - k, "%s\"%s %d\"", i ? "," : "", plan.fix[i].reserve ? "reserve" : "write", plan.fix[i].size);
+      k += snprintf(buf + k, n - k, "%s\"%s %d\"", i ? "," : "", plan.fix[i].reserve ? "reserve" : (plan.fix[i].size < 0 ? "write(no source)" : "write"), plan.fix[i].size);
     snprintf(buf + k, n - k, "]}");
   }
 }
